@@ -29,7 +29,8 @@ fn main() {
             }
             id => {
                 for s in stages(id) {
-                    if s.prop.stage().contains("debug") {
+                    // only the in-process stages (not the debug-profile or child-process ones)
+                    if s.prop.stage() != "main" {
                         continue;
                     }
                     let rep = s.prop.eval(&tape);
